@@ -4,7 +4,7 @@ CONSTANTS
   RegIds = {1,2}
   FileIds = {1,2}
   CliIds = {1,2}
-  SrvIds = {1,2}
+  SrvIds = {1}
   TrackObs = FALSE
   TrackDeps = FALSE
   Dev = "none"
